@@ -35,7 +35,10 @@ def main():
     ap.add_argument('--all-checks', action='store_true')
     ap.add_argument('--scratch', default='/tmp/sweep_repo')
     ap.add_argument('--seed', default='0')
+    ap.add_argument('--summary-only', action='store_true')
     a = ap.parse_args()
+    if a.summary_only:
+        return write_summary()
     scratch = a.scratch
     sh(f'git -C /repo worktree remove --force {scratch}')
     rc, out = sh(f'git -C /repo worktree add --detach {scratch} HEAD')
@@ -89,6 +92,10 @@ def main():
         sh(f'git -C /repo worktree remove --force {scratch}')
         shutil.rmtree(ev_dir, ignore_errors=True)
         shutil.rmtree(rp_dir, ignore_errors=True)
+    return write_summary()
+
+
+def write_summary():
     # summary over all result.json files present
     lines = ['# Seeded changes vs. checks', '',
              'Each row: a change to jbussemaker/adsg-core that breaks the named property while the pinned test suite still passes '
@@ -100,10 +107,12 @@ def main():
         if not os.path.exists(rj):
             continue
         r = json.load(open(rj))
+        if 'checks' not in r:
+            continue
         meta = json.load(open(os.path.join(d, 'meta.json'))) if os.path.exists(os.path.join(d, 'meta.json')) else {}
         needs = (meta.get('needs_to_manifest') or meta.get('summary') or '').replace('|', '/').replace('\n', ' ')[:220]
         cr = '; '.join(f"{c}: **{v['status']}**" + (f" ({', '.join(v['kinds'][:2])})" if v.get('kinds') else '') for c, v in r['checks'].items())
-        lines.append(f"| {r['id']} | {r['property']} | {needs} | {cr} |")
+        lines.append(f"| {r.get('id', os.path.basename(d))} | {r.get('property', '')} | {needs} | {cr} |")
     open(os.path.join(VERIF, 'seeded', 'SUMMARY.md'), 'w').write('\n'.join(lines)+'\n')
     return 0
 
